@@ -313,6 +313,9 @@ class Resolver:
 
     def _ty(self, e, f, env):
         if isinstance(e, ast.Name):
+            lam = self._lambda_default(e)
+            if lam is not None:
+                return self._ty(lam, f, env) if lam != "nodefault" else EMPTY
             if e.id in env:
                 return env[e.id]
             r = self.repo.resolve_name(f.module, e.id)
@@ -389,6 +392,31 @@ class Resolver:
         if isinstance(e, ast.Await):
             return self._ty(e.value, f, env)
         return EMPTY
+
+    @staticmethod
+    def _lambda_default(name_node):
+        """If the name is a parameter of an enclosing lambda: its default
+        expression (or 'nodefault')."""
+        cur = getattr(name_node, "_parent", None)
+        child = name_node
+        while cur is not None and not isinstance(cur, ast.stmt):
+            if isinstance(cur, ast.Lambda) and child is cur.body:
+                a = cur.args
+                params = a.posonlyargs + a.args
+                names = [p.arg for p in params]
+                if name_node.id in names:
+                    i = names.index(name_node.id)
+                    nd = len(a.defaults)
+                    j = i - (len(params) - nd)
+                    if j >= 0:
+                        return a.defaults[j]
+                    return "nodefault"
+                for p, dflt in zip(a.kwonlyargs, a.kw_defaults):
+                    if p.arg == name_node.id:
+                        return dflt if dflt is not None else "nodefault"
+            child = cur
+            cur = getattr(cur, "_parent", None)
+        return None
 
     def _resolved_to_type(self, r, f):
         if r is None:
